@@ -204,7 +204,7 @@ func batch(res *evid.Result, bi int, root string) {
 	for k := 0; k < nMut; k++ {
 		prefer := ""
 		if k > 0 {
-			prefer = []string{"then-else-exchange", "callee-swap", "stmt-reorder", "op-swap", "cond-to-const", "cmp-negate-no-branch-swap", "stmt-remove", "operand-swap", "index-edit", "loop-edit", "small-const"}[(bi*nMut+k)%11]
+			prefer = []string{"dup-remove", "then-else-exchange", "callee-swap", "stmt-reorder", "op-swap", "cond-to-const", "cmp-negate-no-branch-swap", "stmt-remove", "operand-swap", "index-edit", "loop-edit", "small-const"}[(bi*(nMut-1)+k-1)%12]
 		}
 		v, err := pairs.Mutant(rand.New(rand.NewSource(r.Int63())), base, fmt.Sprintf("q%d", k), prefer)
 		if err != nil {
